@@ -485,6 +485,8 @@ def rule_fillomino(h: int, w: int, problem: List[List[int]], checkered: bool = F
                             return False
         return True
 
+    # the values an answer cell can take by the rules: a solver whose variable cannot take one of them rejects every grid using it
+    ok.domains = [list(range(1, h * w + 1))] * (h * w)  # type: ignore[attr-defined]
     return ok
 
 
@@ -559,6 +561,8 @@ def rule_building(n: int, up: List[int], dw: List[int], lf: List[int], rg: List[
                 return False
         return True
 
+    # the values an answer cell can take by the rules: a solver whose variable cannot take one of them rejects every grid using it
+    ok.domains = [list(range(1, n + 1))] * (n * n)  # type: ignore[attr-defined]
     return ok
 
 
@@ -575,6 +579,8 @@ def rule_doppelblock(n: int, clue_row: List[int], clue_column: List[int]) -> Cal
         g = [[pat[y * n + x] for x in range(n)] for y in range(n)]
         return all(line_ok(g[i], clue_row[i]) and line_ok([g[y][i] for y in range(n)], clue_column[i]) for i in range(n))
 
+    # the values an answer cell can take by the rules: a solver whose variable cannot take one of them rejects every grid using it
+    ok.domains = [list(range(0, n - 1))] * (n * n)  # type: ignore[attr-defined]
     return ok
 
 
@@ -597,6 +603,8 @@ def rule_compass(h: int, w: int, problem: List[Tuple[int, int, int, int, int, in
                 return False
         return True
 
+    # the values an answer cell can take by the rules: a solver whose variable cannot take one of them rejects every grid using it
+    ok.domains = [list(range(len(problem)))] * (h * w)  # type: ignore[attr-defined]
     return ok
 
 
@@ -876,6 +884,8 @@ def rule_nanro(h: int, w: int, blocks: List[List[Cell]], num: List[List[int]]) -
                     return False
         return connected(h, w, {c for c in cells(h, w) if val[c] != 0})
 
+    # the values an answer cell can take by the rules: a solver whose variable cannot take one of them rejects every grid using it
+    ok.domains = [list(range(len(blocks[room[(y, x)]]) + 1)) for y in range(h) for x in range(w)]  # type: ignore[attr-defined]
     return ok
 
 
@@ -1053,6 +1063,8 @@ def rule_shakashaka(h: int, w: int, problem: List[List[Optional[int]]]) -> Calla
                     return False
         return True
 
+    # the values an answer cell can take by the rules: a solver whose variable cannot take one of them rejects every grid using it
+    ok.domains = [list(range(5))] * (h * w)  # type: ignore[attr-defined]
     return ok
 
 
@@ -1345,12 +1357,25 @@ def instances(tier: str) -> List[Tuple[str, tuple, dict, Callable[..., Callable[
           ("magnets", (2, 3, [[True, False, False], [True, False, False]], [[False, False, True], [False] * 3], [[-1, 1], [2, -1]], [[-1, -1], [0, -1], [-1, 1]]), {}, rule_magnets),
           ("magnets", (3, 2, [[True, False], [False, False], [False, False]], [[False, False], [True, True], [False, False]], [[0, -1], [-1, -1], [-1, 1]], [[-1, -1], [1, 1]]), {}, rule_magnets),
           ("magnets", (1, 4, [[True, False, True, False]], [[False] * 4], [[-1, 2]], [[-1, -1]] * 4), {}, rule_magnets)]
+    # no clues, dominoes meeting along both directions (equal poles of two different dominoes side by side / one above the other)
+    I += [("magnets", (3, 2, [[True, False], [False, False], [False, False]], [[False, False], [True, True], [False, False]], [[-1, -1]] * 3, [[-1, -1]] * 2), {}, rule_magnets),
+          ("magnets", (2, 3, [[False, True, False], [False, True, False]], [[True, False, False], [False, False, False]], [[-1, -1]] * 2, [[-1, -1]] * 3), {}, rule_magnets),
+          # one clue at a time, zero clues included
+          ("magnets", (2, 2, [[True, False], [True, False]], [[False] * 2] * 2, [[0, -1], [-1, -1]], [[-1, -1], [-1, -1]]), {}, rule_magnets),
+          ("magnets", (2, 2, [[True, False], [True, False]], [[False] * 2] * 2, [[-1, 0], [-1, -1]], [[-1, -1], [-1, -1]]), {}, rule_magnets),
+          ("magnets", (2, 2, [[True, False], [True, False]], [[False] * 2] * 2, [[-1, -1], [-1, -1]], [[0, -1], [-1, -1]]), {}, rule_magnets),
+          ("magnets", (2, 2, [[True, False], [True, False]], [[False] * 2] * 2, [[-1, -1], [-1, -1]], [[-1, -1], [-1, 0]]), {}, rule_magnets),
+          ("magnets", (2, 2, [[True, False], [True, False]], [[False] * 2] * 2, [[-1, -1], [-1, -1]], [[1, -1], [-1, -1]]), {}, rule_magnets),
+          ("magnets", (2, 2, [[True, False], [True, False]], [[False] * 2] * 2, [[-1, -1], [-1, 1]], [[-1, -1], [-1, -1]]), {}, rule_magnets)]
     # nanro (integer answers)
     I += [("nanro", (2, 2, [[(0, 0), (0, 1)], [(1, 0), (1, 1)]], [[0, 0], [0, 0]]), {}, rule_nanro),
           ("nanro", (2, 3, [[(0, 0), (1, 0), (1, 1)], [(0, 1), (0, 2), (1, 2)]], [[0, 0, 0], [0, 0, 0]]), {}, rule_nanro),
           ("nanro", (2, 3, [[(0, 0), (0, 1), (0, 2)], [(1, 0), (1, 1), (1, 2)]], [[0, 0, 2], [0, 0, 0]]), {}, rule_nanro),
           ("nanro", (3, 2, [[(0, 0), (0, 1)], [(1, 0), (2, 0), (2, 1)], [(1, 1)]], [[0, 0], [0, 0], [0, 2]]), {}, rule_nanro),
-          ("nanro", (1, 4, [[(0, 0), (0, 1)], [(0, 2), (0, 3)]], [[0, 0, 0, 0]]), {}, rule_nanro)]
+          ("nanro", (1, 4, [[(0, 0), (0, 1)], [(0, 2), (0, 3)]], [[0, 0, 0, 0]]), {}, rule_nanro),
+          # a given 1 that decides (without it the room could hold two 2s)
+          ("nanro", (1, 4, [[(0, 0), (0, 1)], [(0, 2), (0, 3)]], [[0, 1, 0, 0]]), {}, rule_nanro),
+          ("nanro", (2, 2, [[(0, 0), (0, 1)], [(1, 0), (1, 1)]], [[1, 0], [0, 0]]), {}, rule_nanro)]
     # nurimaze (walls: 1 = wall present)
     I += [("nurimaze", (2, 3, [[1, 1], [1, 1]], [[1, 1, 1]], [[0, 0, 0], [0, 0, 0]], (0, 0), (0, 2)), {}, rule_nurimaze),
           ("nurimaze", (3, 3, [[1, 1], [1, 1], [1, 1]], [[1, 1, 1], [1, 1, 1]], [[0, 0, 0], [0, 0, 1], [0, 0, 0]], (0, 0), (2, 2)), {}, rule_nurimaze),
@@ -1488,6 +1513,12 @@ def _job(args) -> Tuple[str, str, int]:
             return rule(a, kw, ids, posted, ext, label)
         ok = rule(*a, **kw)
         doms = [posted.domains()[i] for i in ids]
+        solver_doms = list(doms)
+        own = [set(d) for d in doms]
+        want_doms = getattr(ok, "domains", None)
+        if want_doms is not None and len(want_doms) == len(doms):
+            # enumerate over the rule's value range too: values the solver's variable cannot take are rejected by it
+            doms = [sorted(set(d) | set(wd), key=lambda v: (not isinstance(v, bool), v)) for d, wd in zip(doms, want_doms)]
         n = 0
         if sound_only:
             # the answer space is too large to enumerate: list the answers the posted constraints admit (depth-first over the answer
@@ -1500,7 +1531,7 @@ def _job(args) -> Tuple[str, str, int]:
                 if k == len(ids):
                     found.append(tuple(part[i] for i in ids))
                     return
-                for v in doms[k]:
+                for v in solver_doms[k]:
                     part[ids[k]] = v
                     n += 1
                     if ext.sat(dict(part)):
@@ -1514,7 +1545,7 @@ def _job(args) -> Tuple[str, str, int]:
             return "ok", label + f" [{len(found)} admitted answers, each obeys the rules]", n
         for pat in itertools.product(*doms):
             n += 1
-            got = ext.sat(dict(zip(ids, pat)))
+            got = all(v in o for v, o in zip(pat, own)) and ext.sat(dict(zip(ids, pat)))
             want = ok(pat)
             if got != want:
                 return "bad", (f"{label}: the posted constraints {'admit' if got else 'reject'} the answer {_show(pat)} "
